@@ -32,6 +32,36 @@ var httpAlphabet = []Op{
 	{V: "remove", N: "A"}, {V: "remove", N: "B"},
 }
 
+// confusable: name pairs standing in for A and B
+var confusable = [][2]string{{"e_1", "e-1"}, {"Relay", "relay"}, {"a_c", "abc"}}
+
+func rename(ops []Op, pair [2]string) []Op {
+	out := make([]Op, len(ops))
+	for i, o := range ops {
+		switch o.N {
+		case "A":
+			o.N = pair[0]
+		case "B":
+			o.N = pair[1]
+		}
+		out[i] = o
+	}
+	return out
+}
+
+// opNames: the names a sequence uses (A and B always: the endpoint probes look at both).
+func opNames(ops []Op) []string {
+	seen := map[string]bool{"A": true, "B": true}
+	out := []string{"A", "B"}
+	for _, o := range ops {
+		if o.N != "" && !seen[o.N] {
+			seen[o.N] = true
+			out = append(out, o.N)
+		}
+	}
+	return out
+}
+
 func sequences(alpha []Op, maxLen int) [][]Op {
 	var out [][]Op
 	var rec func(prefix []Op)
@@ -153,7 +183,14 @@ func svcScenarios(thorough bool) []SvcScenario {
 		}
 		for _, il := range inter {
 			for _, p := range perms(len(k)) {
-				out = append(out, SvcScenario{Kind: "svc", K: k, Interleave: il, Disc: p})
+				sc := SvcScenario{Kind: "svc", K: k, Interleave: il, Disc: p}
+				if len(out)%2 == 1 {
+					// every second scenario: the connections go away in other ways than an orderly close
+					for i := range p {
+						sc.How = append(sc.How, (len(out)/2+i)%3)
+					}
+				}
+				out = append(out, sc)
 			}
 		}
 	}
@@ -190,6 +227,26 @@ func workList(c *lib.Ctx) (items []item, complete bool) {
 				continue
 			}
 			hs = append(hs, History{Kind: "ops", OneTime: ot, Ops: ops})
+		}
+	}
+	// the same alphabet over pairs of names that differ only in ways a sloppy comparison
+	// (pattern matching, case folding) would not see: length <= 2 all, length 3 sampled
+	for pi, pair := range confusable {
+		for _, ops := range sequences(instantAlphabet, 3) {
+			if len(ops) == 3 && pick.next()%4 != 0 {
+				continue
+			}
+			hs = append(hs, History{Kind: "ops", OneTime: pi%2 == 1, Ops: rename(ops, pair)})
+		}
+	}
+	// a second add of the same name handled while a removal is under way
+	for _, k1 := range []string{"Smb", "External"} {
+		for _, k2 := range []string{"Smb", "External"} {
+			for _, ot := range []bool{false, true} {
+				hs = append(hs,
+					History{Kind: "ops", OneTime: ot, Ops: []Op{{V: "add", K: k1, N: "A"}, {V: "remove", N: "A", Mid: k2}, {V: "fresh"}}},
+					History{Kind: "ops", OneTime: ot, Ops: []Op{{V: "add", K: k1, N: "A"}, {V: "add", K: k2, N: "B"}, {V: "remove", N: "A", Mid: k2}, {V: "remove", N: "A"}, {V: "add", K: k1, N: "A"}}})
+			}
 		}
 	}
 	for i := 0; i < len(hs); i += batchSize {
@@ -468,7 +525,7 @@ func runBatch(c *lib.Ctx, hs []History) {
 		}
 		c.Observe("histories", 1)
 		c.SampleSome(400, func() any { return w })
-		clean := s.broken == "" && s.cleanup([]string{"A", "B"})
+		clean := s.broken == "" && s.cleanup(opNames(s.hist))
 		if len(s.findings) > nf && allReportedOften(s.findings[nf:]) {
 			// a systematic defect: its class already has its witnesses, only count it
 			for _, f := range s.findings[nf:] {
